@@ -65,7 +65,10 @@ CvTags ==
   \cup (IF ~hist /\ ~okFree THEN {<<"C08", "nearest">>} ELSE {})
   \cup (IF hist /\ strict /\ n # last THEN {<<"C09", "not-stable">>} ELSE {})
   \cup (IF hist /\ ~okKeep /\ ~okFree /\ ~(strict /\ n # last) THEN {<<"C09", "not-memoryless">>} ELSE {})
-  \cup (IF hist /\ ~edited /\ prevU # NoPrev /\ ~e.nan /\ ur >= prevU + TolU /\ n < last THEN {<<"C09", "not-monotone">>} ELSE {})
+  \* (inputs inside the range only: above the range the search sees the clamped input while the window
+  \* sees the raw one, so "rising input" is not well defined there)
+  \cup (IF hist /\ ~edited /\ prevU # NoPrev /\ ~e.nan /\ prevU >= 0 /\ ur <= VMax /\ ur >= prevU + TolU /\ n < last
+          THEN {<<"C09", "not-monotone">>} ELSE {})
   \* "kept by the hysteresis window": the previous note is reported although the memoryless rule
   \* would not report it for this input (or the input is certainly inside the window)
   \cup C19Tags(n, e.sk, e.fq, e.fq, IF inrange THEN e.eu ELSE Min2(e.eu, e.ec), inrange, ~hist,
